@@ -226,12 +226,10 @@ impl GenerateConfig {
             "force": self.force.unwrap_or(false),
         });
 
-        // Ensure plugins section exists and insert typegen configuration
-        if !tauri_config.is_object() {
-            tauri_config = serde_json::json!({});
-        }
-
-        let tauri_obj = tauri_config.as_object_mut().unwrap();
+        // The document must be an object: never replace what is there
+        let tauri_obj = tauri_config.as_object_mut().ok_or_else(|| {
+            ConfigError::InvalidConfig("tauri.conf.json is not a JSON object".to_string())
+        })?;
 
         // Create plugins section if it doesn't exist
         if !tauri_obj.contains_key("plugins") {
@@ -240,8 +238,15 @@ impl GenerateConfig {
 
         // Insert typegen configuration into plugins
         if let Some(plugins) = tauri_obj.get_mut("plugins") {
-            if let Some(plugins_obj) = plugins.as_object_mut() {
-                plugins_obj.insert("typegen".to_string(), typegen_config);
+            match plugins.as_object_mut() {
+                Some(plugins_obj) => {
+                    plugins_obj.insert("typegen".to_string(), typegen_config);
+                }
+                None => {
+                    return Err(ConfigError::InvalidConfig(
+                        "\"plugins\" in tauri.conf.json is not an object".to_string(),
+                    ));
+                }
             }
         }
 
